@@ -201,6 +201,9 @@ func (e *Env) Close() {
 	}
 }
 
+// errCallerPred is the error the harness's own selector functions answer with.
+var errCallerPred = errors.New("caller's selector function failed")
+
 func errClass(err error) string {
 	switch {
 	case err == nil:
@@ -215,6 +218,8 @@ func errClass(err error) string {
 		return "err:invalidObjectID"
 	case errors.Is(err, sif.ErrInvalidGroupID):
 		return "err:invalidGroupID"
+	case errors.Is(err, errCallerPred):
+		return "err:caller"
 	}
 	return "err:other"
 }
@@ -272,6 +277,21 @@ func (s Sel) build() sif.DescriptorSelectorFunc {
 			h.Hex = parts[1]
 		}
 		return sif.WithOCIBlobDigest(h)
+	case "P":
+		return func(d sif.Descriptor) (bool, error) {
+			in := func(ids []uint32, id uint32) bool {
+				for _, x := range ids {
+					if x == id {
+						return true
+					}
+				}
+				return false
+			}
+			if in(s.E, d.ID()) || (s.ET != 0 && int64(d.DataType()) == s.ET) {
+				return false, errCallerPred
+			}
+			return in(s.M, d.ID()) || (s.MT != 0 && int64(d.DataType()) == s.MT) || (s.MG != 0 && d.GroupID() == s.MG), nil
+		}
 	}
 	panic("bad sel " + s.Kind)
 }
